@@ -51,6 +51,11 @@ def gen_case(rng, tier):
         kw['days'] = rng.choice([0, 1, 2, 7, 30, 365, 3650, -1])
     if rng.random() < 0.6:
         kw['hours'] = rng.choice([0, 1, 24, 100, 10000])
+    if rng.random() < 0.12:
+        # a period that is not a whole number of days / hours (whole seconds all the same)
+        kw.pop('days', None)
+        kw.pop('hours', None)
+        kw[rng.choice(['days', 'hours'])] = rng.choice([0.5, 1.5, 0.25, 36.5, 2.75])
     days = kw.get('days', 0)
     hours = 0 if days else kw.get('hours', 24)
     if kind == 'nosec':
@@ -146,10 +151,17 @@ def eval_cases(rng, count, extra):
         days = case['kw'].get('days', 0)
         hours = 0 if days else case['kw'].get('hours', 24)
         ts = [matchers.oracle_ts(case['matcher'], ln) for ln in case['lines']]
-        out.append({'case': case, 'impl': impl,
-                    'model_case': {'kind': 'since', 'cur': civil(cur), 'since': impl['since'],
-                                   'days': days, 'hours': hours or 0,
-                                   'lines': [civil(t) if t else None for t in ts]}})
+        item = {'case': case, 'impl': impl}
+        if isinstance(days, float) or isinstance(hours, float):
+            # the model's window is an integer number of days / hours; for a fractional period
+            # the window in seconds is computed here (the same rule: days if non-zero, otherwise
+            # hours) and the model is only used as the calendar
+            item['window_secs'] = int(timedelta(days=days, hours=hours or 0).total_seconds())
+            days, hours = 0, 0
+        item['model_case'] = {'kind': 'since', 'cur': civil(cur), 'since': impl['since'],
+                              'days': days, 'hours': hours or 0,
+                              'lines': [civil(t) if t else None for t in ts]}
+        out.append(item)
     return out
 
 
@@ -161,7 +173,9 @@ def judge(rep, item, mobs):
     rep.count('lines', len(case['lines']))
     for k in ('p', 'f', 'u'):
         rep.count('out_' + k, impl['outs'].count(k))
-    boundary = m['curSecs'] - m['window']
+    boundary = m['curSecs'] - item.get('window_secs', m['window'])
+    if 'window_secs' in item:
+        rep.count('fractional_period_cases')
     # the property, with the Lean calendar as the time line
     want = []
     for ls in m['lineSecs']:
